@@ -726,3 +726,64 @@ def s_constant_cache_real_builder(_ctx):
 SCENARIOS.append(Scenario("C12.builder.constant_cache[real builder, special literals]", s_constant_cache_real_builder,
                           F(BUILDER, "GraphBuilder._get_or_create_constant", "_constant_cache_key") + [("onnxscript/_internal/tape_builder.py", "_constant_name")], kind="evaluation",
                           trusted=["numpy: np.array(literal, dtype).tobytes() is the reference for 'the bits of the literal'"]))
+
+
+LITERAL_VALUE = '''
+# a float literal beside a DOUBLE / FLOAT16 tensor: value in the translated graph (onnxruntime) vs eager mode vs the graph builder vs numpy
+import sys
+import numpy as np
+import onnx_ir as ir
+import onnxruntime as ort
+from onnxscript import script, DOUBLE, FLOAT16
+from onnxscript import opset18 as op
+from onnxscript._internal import builder
+@script(default_opset=op)
+def beside_double(x: DOUBLE[2]) -> DOUBLE[2]:
+    return x + 0.1
+@script(default_opset=op)
+def beside_float16(x: FLOAT16[2]) -> FLOAT16[2]:
+    return x + 1.00048828125002980232238769531250      # 1 + 2**-11 + 2**-25: just above a float16 tie
+bad = 0
+for fn, lit, npt, irt in ((beside_double, 0.1, np.float64, ir.DataType.DOUBLE), (beside_float16, 1 + 2**-11 + 2**-25, np.float16, ir.DataType.FLOAT16)):
+    x = np.zeros(2, npt)
+    graph = ort.InferenceSession(fn.to_model_proto().SerializeToString(), providers=["CPUExecutionProvider"]).run(None, {"x": x})[0][0]
+    eager = np.asarray(fn(x))[0]
+    g = ir.Graph([], [], nodes=[], opset_imports={"": 18}, name="g")
+    xv = ir.Value(name="x", type=ir.TensorType(irt), shape=ir.Shape([2])); g.inputs.append(xv)
+    gb = builder.GraphBuilder(g)
+    gb.op.Add(xv, lit)
+    built = [v.const_value.numpy() for v in g.initializers.values()][0]
+    want = npt(lit)
+    same = bool(graph == want and eager == want and built == want)
+    print(f"{fn.name}: literal {lit!r} -> graph {graph!r}, eager {eager!r}, builder {built!r}, numpy {want!r} {'SAME' if same else 'DIFFERENT'}")
+    if not same:
+        bad += 1
+sys.exit(1 if bad else 0)
+'''
+
+
+def s_literal_value_beside_wide_or_narrow_float(_ctx):
+    """'the tensor it becomes has the same element type AND VALUE in the translated graph, in eager evaluation and in a graph traced with the
+    graph builder': a float literal that is not exactly representable in float32, beside a DOUBLE sibling (0.1) and beside a FLOAT16 sibling
+    (a value just above a float16 tie, where rounding to float32 first changes the result).  Decided natively (onnxruntime / numpy)."""
+    import subprocess
+    import sys
+    import tempfile
+    from contracts.c17_opsets import Agg
+    agg = Agg()
+    with tempfile.NamedTemporaryFile("w", suffix=".py", delete=False) as f:
+        f.write(LITERAL_VALUE)
+    p = subprocess.run([sys.executable, f.name], capture_output=True, text=True, timeout=900)
+    lines = [ln for ln in p.stdout.splitlines() if "->" in ln]
+    for tag, key in (("0.1 beside a DOUBLE tensor", "beside_double"), ("1+2**-11+2**-25 beside a FLOAT16 tensor", "beside_float16")):
+        ln = [x for x in lines if x.startswith(key)]
+        ok = bool(ln) and p.returncode in (0, 1)
+        same = bool(ln) and ln[0].endswith("SAME")
+        agg.ob("C12.value.a_float_literal_has_the_same_value_in_graph_eager_and_builder", ok and same, (ln[0] if ln else (p.stdout + p.stderr)[-300:]),
+               "C12: 'the tensor it becomes has the same element type and value in the translated graph, in eager evaluation and in a graph traced with the graph builder'", case=tag)
+    return {"obligations": agg.obs, "paths": 2, "covered": ["literal_value_cases=2"], "notes": [], "functions": []}
+
+
+SCENARIOS.append(Scenario("C12.value.float_literal_beside_double_or_float16", s_literal_value_beside_wide_or_narrow_float,
+                          [("onnxscript/_internal/converter.py", "Converter._emit_const"), ("onnxscript/_internal/autocast.py", "static_cast_inputs")], kind="evaluation",
+                          trusted=["onnxruntime Cast / CastLike and numpy conversions round to nearest even"]))
